@@ -824,7 +824,7 @@ pub fn run(run: &'static Run) {
     run.assume("start directories are spelled by their physical path (git always starts from getcwd()); starts reached through symlinks are out of scope");
     run.assume("layouts whose `.git` file is malformed make git abort with a fatal error instead of naming a repository: counted as trivial (no comparison)");
     run.assume("bare-ness / core.worktree from the repository configuration is not visible to gix-discover (documented: 'the git-config ultimately decides'); layouts use default configuration only");
-    run.budget_secs(std::env::var("VERIF_BUDGET").ok().and_then(|s| s.parse().ok()).unwrap_or(run.pick(35.0, 560.0)));
+    run.budget_secs(std::env::var("VERIF_BUDGET").ok().and_then(|s| s.parse().ok()).unwrap_or(run.pick(120.0, 1500.0)));
 
     {
         let (mut cases, mut keys, mut layouts) = (0u64, std::collections::HashSet::new(), std::collections::HashSet::new());
